@@ -182,11 +182,20 @@ def solver_uses_lookup(chk, rng):
     from pbv import integ
     m = impl.pb()
     U = m.Unit
-    for wdir in (0.0, 180.0, 90.0):
+    from pbv import scen
+    wind_lists = [[[rng.choice([60.0, 120.0]), wdir, 1e8]] for wdir in (0.0, 180.0, 90.0)]
+    # the wind changes along the flight - calm first, calm in the middle, reversal - so that "which speed is the air speed"
+    # has to be answered anew in every segment
+    wind_lists += [[[0.0, 0.0, 150.0], [rng.choice([60.0, 90.0]), rng.choice([0.0, 180.0]), 1e8]],
+                   [[70.0, 180.0, 200.0], [0.0, 0.0, 500.0], [90.0, 0.0, 1e8]],
+                   [[80.0, 0.0, 300.0], [80.0, 180.0, 1e8]],
+                   scen.wind_list(rng, "multi")]
+    for wl in wind_lists:
+        wdir = wl[0][1] if len(wl) == 1 else "segments:%d" % len(wl)
         core.reset_world()
         p = shots.gen_shot(rng, winds=0, look=0.0)
         p["mv_fps"] = rng.choice([900.0, 1500.0, 2900.0])
-        p["winds"] = [[rng.choice([60.0, 120.0]), wdir, 1e8]]
+        p["winds"] = wl
         shot = shots.build_shot(p)
         calc = shots.build_calc({"max_calc_step_size_feet": 3.0})
         rec = integ.Recorder().install()
@@ -207,6 +216,8 @@ def solver_uses_lookup(chk, rng):
                 break
         chk.count(1, ("solver_lookup", wdir))
         chk.stratum("solver_uses_lookup")
+        if len({(it["wind"].x, it["wind"].z) for it in rec.calls[-1]["iters"]}) >= 2:
+            chk.stratum("solver_lookup_wind_changes_in_flight")
         if bad:
             chk.violation("C09.SolverDoesNotUseLookupAtAirMach", {"source": "hook", "wind_from_deg": wdir}, {"shot": p, **bad})
 
@@ -257,7 +268,7 @@ def run(chk: core.Check, replay=None) -> None:
     if bad:
         chk.violation("C09.ShippedTableChangedByLibraryCall", {"tables": bad}, {"tables": bad})
     chk.sample(next(iter(raw.values())))
-    chk.require_strata(["int_at_node", "int_beyond_table", "int_midpoint_or_half", "real_shipped", "real_custom", "real_at_node", "real_beyond", "solver_uses_lookup"])
+    chk.require_strata(["int_at_node", "int_beyond_table", "int_midpoint_or_half", "real_shipped", "real_custom", "real_at_node", "real_beyond", "solver_uses_lookup", "solver_lookup_wind_changes_in_flight"])
     chk.rule.append("every table shape (3..%d nodes, gaps 1..3) x every quarter-grid query (TLC Gen_DragLookup) through 2 entry "
                     "points; all 9 shipped tables and seeded custom tables queried at / +-1 ulp / +-1e-9 around every node and "
                     "midpoint and beyond the last entry; non-trivial = query within the table span" % (6 if thorough else 5))
